@@ -289,6 +289,19 @@ pub fn plan(tier: Tier) -> Plan {
     checks.push(cw::<H10>(k));
     checks.push(cw::<average::Histogram10>(k));
     checks.push(cw::<H100>(if q { 4 } else { 15 }));
+    #[cfg(feature = "nightly")]
+    {
+        checks.push(sweep::<K1>("edge-lists", 2));
+        checks.push(sweep::<K2>("edge-lists", 2));
+        checks.push(sweep::<K3>("edge-lists", 2));
+        checks.push(sweep::<K4>("edge-lists", 1));
+        checks.push(sweep::<K10>("defects", 2));
+        checks.push(sweep::<K100>("defects", 2));
+        checks.push(cw::<K1>(k));
+        checks.push(cw::<K3>(k));
+        checks.push(cw::<K10>(k));
+        checks.push(cw::<K100>(k));
+    }
     Plan {
         rule: "from_ranges: LEN 1..4: every list of length 0..LEN+1+extra over the 9-value lattice {-inf,-1,-0.0,0,0.5,1,2,+inf,NaN}; LEN 10/100: a valid base list (with repeated edges and two extra values) with every single defect (NaN, inversion, -inf, +inf) at every position, every pair of defects and truncations; acceptance, error kind of the first offending position, ranges() bit-for-bit, zero counts; with_const_width: every pair start < end from {0, ±a·10^k} over 2·kmax+1 orders of magnitude, first edge == start, non-decreasing, every edge within 8 ulp(max(|start|,|end|)) of the exact start + i(end-start)/LEN; non-trivial = inputs that are invalid or not of length LEN+1".into(),
         assumptions: common_assumptions(),
